@@ -39,8 +39,8 @@ CHECKS = {
         "technique": TECH,
     },
     "C04": {
-        "text": "The private OligoComputer::vectorise_one is executed on every byte string up to N (symbolic length) with pos_map = the native table of the real "
-        "kmer_pos_maps(k); for a symbolic column the solver shows v[col] == count (raw) or the correctly rounded IEEE quotient count/max(1,total) (normalised) against "
+        "text": "The computer is built by the real public constructor OligoComputer::new + set_norm (k <= 3; rayon::current_num_threads and kmer_pos_maps stubbed - the "
+        "latter by the native tables that C03 decides) and the private vectorise_one is executed on every byte string up to N (symbolic length); for a symbolic column the solver shows v[col] == count (raw) or the correctly rounded IEEE quotient count/max(1,total) (normalised) against "
         "an oracle that counts windows through a compiler-evaluated code->column table; all-zero row without window; row bit-identical under reverse complement, "
         "case toggle and U-for-T.",
         "design_ref": "DESIGN.md section 3 / C04",
@@ -58,7 +58,7 @@ CHECKS = {
         "technique": TECH,
     },
     "C08": {
-        "text": "KERNEL claim: the private CovComputer::vectorise_one for ANY counts table (<= 3 symbolic entries with symbolic u32 multiplicities), symbolic record, "
+        "text": "KERNEL claim: the real constructor CovComputer::new + set_norm (rayon stub) and the private CovComputer::vectorise_one for ANY counts table (<= 3 symbolic entries with symbolic u32 multiplicities), symbolic record, "
         "symbolic bin size, concrete bin count: for a symbolic bin the solver shows the entry equals the number (or correctly rounded fraction) of windows whose "
         "multiplicity c satisfies min(floor(c/bin-size), bins-1) = bin - including that the code's f64 floor-division equals the integer quotient.",
         "design_ref": "DESIGN.md section 3 / C08",
@@ -79,7 +79,7 @@ CHECKS = {
         "technique": TECH,
     },
     "C11": {
-        "text": "cgr_maps and the private CgrComputer::vectorise_one are executed for symbolic square size 1..=2^20 and every byte string (all 256 values) of each "
+        "text": "The real constructor CgrComputer::new (rayon stub), cgr_maps and the private CgrComputer::vectorise_one are executed for symbolic square size 1..=2^20 and every byte string (all 256 values) of each "
         "length: Ok iff all bytes are ACGTU letters; each point is bit-exactly the midpoint of the previous point and the base's corner (corner table from the "
         "property), with an exactness witness, inside the square and inside the sub-squares of its last one and two bases; prefix determinism by a second run on the prefix.",
         "design_ref": "DESIGN.md section 3 / C11",
@@ -87,7 +87,7 @@ CHECKS = {
         "technique": TECH,
     },
     "C12": {
-        "text": "The private OligoCgrComputer::vectorise_one/seq_to_kmer/cgr_maps are executed (struct built as `new` builds it, from the native tables): for a symbolic "
+        "text": "The real constructor OligoCgrComputer::new + set_norm (rayon and kmer_pos_maps stubbed as in C04) and the private vectorise_one/seq_to_kmer/cgr_maps are executed: for a symbolic "
         "column, (x,y) is bit-exactly the chaos-game end point of the column's k-mer text (oracle list evaluated by the compiler) for symbolic square size, f equals "
         "the oracle's count or correctly rounded count/total, and (x,y) is equal across two different records.",
         "design_ref": "DESIGN.md section 3 / C12",
@@ -107,9 +107,10 @@ CHECKS = {
     "C14": {
         "text": "(a) safety-only runs of the private accumulators of oligo / oligocgr / coverage with the native tables: Kani's pointer checks decide every "
         "get_unchecked(_mut) for all records in the bounds; every pos_map entry < kcount for k <= 7(8); (b) MMWriter::write_at writes exactly the given bytes and "
-        "nothing else iff pos+len <= capacity (and is shown NOT to bounds-check the tail); (c) the offset arithmetic of vectorise_mmap, extracted from the current "
-        "source text, tiles the file exactly for symbolic record counts/numbers, delimiter lengths 0..7, header on/off. Found the genuine delimiter-length defect "
-        "(fixed by a fix: commit).",
+        "nothing else iff pos+len <= capacity (and is shown NOT to bounds-check the tail); (c) the file-layout arithmetic of vectorise_mmap, extracted as a program slice "
+        "from the current source text and compiled verbatim, tiles the file exactly for symbolic record counts/numbers, delimiter lengths 0..7, header on/off; (d) the "
+        "counter's partition index (extracted expressions incl. init()'s n_parts) is below the table length for every k-mer, thread count >= 1, data size and memory "
+        "ceiling. Found the genuine delimiter-length defect (fixed by a fix: commit).",
         "design_ref": "DESIGN.md section 3 / C14",
         "note": NOTE_COMMON + "(c) rests on a row-length model (each value is NUMBER_SIZE characters) guarded syntactically: if the value formatting or row assembly "
         "in vectorise_mmap changes shape the check is inconclusive. Counterexamples of (c) are replayed end-to-end through the public OligoComputer API on real "
@@ -131,7 +132,9 @@ CHECKS = {
         "text": "Two complementary encodings of the real KmerMinimiserGenerator. Whole-run: for each (w,m) and length the solver shows item-by-item equality with the "
         "plain MinimiserGenerator and that the concatenated k-mer lists are exactly the canonical w-mers of the valid windows in order (also against the real "
         "KmerGenerator). Inductive step for clause (1): from ANY pair of states agreeing on the shared fields and satisfying a validity invariant (proved inductive, "
-        "base case included) one next() of each yields the same run and agreeing states - covering call histories of any length for sequences up to N.",
+        "base case included) one next() of each yields the same run and agreeing states; inductive step for clause (2): the k-mer list attached by one call is exactly "
+        "the canonical w-mers of the valid windows ending at the positions that call consumed (calls tile the sequence) - both covering call histories of any length for "
+        "sequences up to N.",
         "design_ref": "DESIGN.md section 3 / C18",
         "note": NOTE_COMMON + "VecDeque ring model and a fixed-capacity Vec model for the per-run k-mer list (one added import line in kmer_minimisers.rs) under "
         "cfg(kani). Bounds: whole-run (w,m) in {(2,1),(2,2),(3,2),(3,3)} L <= w+1 (quick) / w+2, more pairs optional (thorough); step (w,m,N) up to (4,2,7) quick, "
